@@ -115,7 +115,8 @@ From KV Require Import Model.RangeCodec Proofs.RangeHeaderProofs.
    inferred from the sum - for EVERY normalized table (sorted non-empty alphabet of byte values, every frequency in
    [1, 2^lr), sum 2^lr, zero elsewhere; lr in 8..15 - lr = 16 is accepted by the constructor but does not fit the
    3-bit field), written anywhere in a stream, any buffers and source schedule: decodeHeader returns the table and the log
-   range and consumes exactly the header.  The coder itself (interval arithmetic) is not proved. *)
+   range and consumes exactly the header.  The coder itself (interval arithmetic) is proved further down
+   (C12_range_codec_roundtrip). *)
 Theorem C12_range_header_roundtrip : forall wbuf rbuf sched lr alpha fr hops fr0 rest,
   8 <= lr <= 15 -> StronglySorted N.lt alpha -> alpha <> [] -> table_ok lr alpha fr -> length fr0 = 256%nat ->
   header_ops lr alpha fr = Some hops ->
@@ -150,3 +151,29 @@ Theorem C12_range_chunk_header_roundtrip : forall (wbuf rbuf : N) sched (buf fr0
     run_arops s' (arops_of rest) = avals_of rest.
 Proof. exact range_chunk_header_roundtrip. Qed.
 Print Assumptions C12_range_chunk_header_roundtrip.
+
+(* ... and the coder itself, hence the whole codec: for EVERY block of bytes, of any length (any number of 32768-byte
+   chunks, chunks of one distinct symbol included), RangeDecoder.Read on the bytes RangeEncoder.Write + Close produced
+   returns the block.  Inside (Proofs/RangeCoreProofs.v): the encoder's normalisation loop ends within three tests and
+   keeps low + range within 60 bits (with the junk its shifts leave in bits 60..63 of the uint64); the number formed by
+   everything written from a state on lies in that state's interval; the decoder, whose 60-bit window is not aligned
+   with the 28-bit writes, therefore finds its count in the slot of the encoded symbol and follows the encoder state for
+   state.  The premise is only that the block is made of byte values. *)
+From KV Require Import Proofs.InBSProofs Proofs.ReadArrayProofs Proofs.MirrorArrayProofs Proofs.ContainerProofs Proofs.RangeCoreProofs Proofs.RangeCodecProofs.
+Theorem C12_range_codec_roundtrip : forall block : list N, bytes_ok block ->
+  exists bytes, range_encode block = Some bytes /\ range_decode (length block) bytes = ROk block.
+Proof. exact range_codec_roundtrip. Qed.
+Print Assumptions C12_range_codec_roundtrip.
+
+(* the core alone, for any table the header can carry (not only normalized histograms), from the initial state, anywhere
+   in a stream: the decoder returns the symbols and consumes exactly what the encoder wrote *)
+Theorem C12_range_core_roundtrip : forall lr fr bs, (lr <= 16)%N -> length fr = 256%nat -> tot fr = (2 ^ lr)%N -> Forall (sym_in fr) bs ->
+  exists lowf ops, enc_bytes lr (cum_of fr) (0%N, TOP_RANGE) bs [] = Some (lowf, ops) /\ cops_ok (ops ++ [finalop lowf]) /\
+    forall s t P p, RA s -> Forall aop_ok t -> (p < 2 ^ P)%N ->
+      uval s = (fst (abvs (map conv (ops ++ [finalop lowf]) ++ t)) * 2 ^ P + p)%N ->
+      total s = (snd (abvs (map conv (ops ++ [finalop lowf]) ++ t)) + P)%N ->
+      exists s1 code s', read_bits s 60 = (s1, Val code) /\
+        dec_bytes (length bs) s1 lr (cum_of fr) 0 TOP_RANGE code [] = (s', Some bs) /\ RA s' /\
+        uval s' = (fst (abvs t) * 2 ^ P + p)%N /\ total s' = (snd (abvs t) + P)%N.
+Proof. exact range_core_roundtrip. Qed.
+Print Assumptions C12_range_core_roundtrip.
